@@ -3,10 +3,13 @@ package g_pkg
 import (
 	"bytes"
 	"fmt"
+	"os"
+	"runtime"
 	"sort"
 	"sync"
 	"sync/atomic"
 	"testing"
+	"time"
 
 	"github.com/influxdata/influxdb/v2/pkg/bloom"
 	"github.com/influxdata/influxdb/v2/pkg/radix"
@@ -79,12 +82,12 @@ func c36RHH(r *vkit.Run, rg *vkit.Rand, ci int) {
 		LoadFactor:     vkit.Pick(rg, []int{50, 75, 90, 90, 100}),
 		MetricsEnabled: rg.Chance(1, 4),
 	}
-	nKeys := vkit.Pick(rg, []int{3, 8, 30, 120, 600})
+	nKeys := vkit.Pick(rg, []int{3, 8, 30, 120, 300})
 	withEmpty := rg.Chance(1, 3)
 	dom := c36KeyDomain(rg, nKeys, withEmpty)
 	m := rhh.NewHashMap(opt)
 	model := map[string]int{}
-	nOps := rg.Range(20, 500)
+	nOps := rg.Range(20, 300)
 	var hist []c36Op
 	ctr := ci * 100000
 	feat := func(op string) map[string]string {
@@ -178,7 +181,11 @@ func c36RHH(r *vkit.Run, rg *vkit.Rand, ci int) {
 			r.Event("rhh_get", 1)
 		case x < 93:
 			hist = append(hist, c36Op{Op: "Grow"})
-			m.Grow(m.Cap() * int64(rg.Range(1, 4)))
+			if m.Cap() <= 4096 { // keep the table small: repeated explicit growth is exponential
+				m.Grow(m.Cap() * int64(rg.Range(1, 4)))
+			} else {
+				m.Grow(m.Cap() / 2) // not larger than the current capacity: must be a no-op
+			}
 			checkAll("after Grow")
 		case x < 95:
 			hist = append(hist, c36Op{Op: "Reset"})
@@ -223,9 +230,11 @@ func c36Bloom(r *vkit.Run, rg *vkit.Rand, ci int) {
 	inF, inG := map[string]bool{}, map[string]bool{}
 	feat := func(op string) map[string]string { return map[string]string{"structure": "bloom", "op": op} }
 	bad := false
+	checked := int64(0)
+	defer func() { r.Event("bloom_membership_checked", checked) }()
 	fn := func(op string, f *bloom.Filter, present map[string]bool) {
 		for key := range present {
-			r.Event("bloom_membership_checked", 1)
+			checked++
 			if !f.Contains([]byte(key)) && !bad {
 				bad = true
 				c36T.V("bloom_false_negative", feat(op), map[string]any{"m_bits": mbits, "k": k, "key_hex": vkit.Hex([]byte(key)), "inserted": len(present), "after": op})
@@ -473,7 +482,7 @@ func c36ID(rg *vkit.Rand) uint64 {
 	case 0, 1, 2:
 		return uint64(rg.Intn(300))
 	case 3:
-		return uint64(65536*rg.Intn(4)) + uint64(rg.Intn(5)) - 2 + 2
+		return uint64(65536*rg.Intn(4)) + uint64(rg.Intn(5))
 	case 4:
 		return uint64(65536*(1+rg.Intn(3))) - uint64(1+rg.Intn(3))
 	case 5:
@@ -545,11 +554,31 @@ func c36IDSet(r *vkit.Run, rg *vkit.Rand, ci int) {
 		bad = true
 		c36T.V("idset_differs_from_set_model", map[string]string{"structure": "SeriesIDSet", "op": op}, map[string]any{"detail": detail, "history_tail": c36Tail(hist)})
 	}
-	cmp := func(op string, i int) {
+	full, cheap := int64(0), int64(0)
+	defer func() { r.Event("idset_full_comparisons", full); r.Event("idset_cardinality_comparisons", cheap) }()
+	cmpFull := func(op string, i int) {
 		if d := c36SetEq(real[i], model[i]); d != "" {
 			fail(op, fmt.Sprintf("set %d: %s", i, d))
 		}
-		r.Event("idset_full_comparisons", 1)
+		full++
+	}
+	// after every operation: cardinality + a few membership probes; the full content (Slice vs
+	// sorted model) after every 4th operation, after every set-algebra result and at the end
+	cmp := func(op string, i int) {
+		if len(model[i]) <= 64 || rg.Chance(1, 4) {
+			cmpFull(op, i)
+			return
+		}
+		cheap++
+		if real[i].Cardinality() != uint64(len(model[i])) {
+			fail(op, fmt.Sprintf("set %d: cardinality %d, model %d", i, real[i].Cardinality(), len(model[i])))
+		}
+		for p := 0; p < 4; p++ {
+			id := c36ID(rg)
+			if _, want := model[i][id]; real[i].Contains(id) != want {
+				fail(op, fmt.Sprintf("set %d: Contains(%d) = %v, model %v", i, id, !want, want))
+			}
+		}
 	}
 	cmpNew := func(op string, got *tsdb.SeriesIDSet, want c36Set) {
 		if d := c36SetEq(got, want); d != "" {
@@ -557,7 +586,7 @@ func c36IDSet(r *vkit.Run, rg *vkit.Rand, ci int) {
 		}
 		r.Event("idset_result_comparisons", 1)
 	}
-	nOps := rg.Range(10, 250)
+	nOps := rg.Range(10, 160)
 	for o := 0; o < nOps && !bad; o++ {
 		a, b := rg.Intn(nSets), rg.Intn(nSets)
 		id := c36ID(rg)
@@ -575,7 +604,7 @@ func c36IDSet(r *vkit.Run, rg *vkit.Rand, ci int) {
 		case 4:
 			lastOp = "AddMany"
 			var ids []uint64
-			if rg.Chance(1, 3) { // a dense run: array → bitmap container
+			if rg.Chance(1, 5) { // a dense run: array → bitmap container
 				base := uint64(65536 * rg.Intn(3))
 				for x := uint64(0); x < uint64(rg.Range(4000, 5000)); x++ {
 					ids = append(ids, base+x*uint64(1+rg.Intn(2)))
@@ -614,10 +643,13 @@ func c36IDSet(r *vkit.Run, rg *vkit.Rand, ci int) {
 			continue
 		case 9:
 			lastOp = "Merge"
+			// the receiver itself is never an operand: s.Merge(s) blocks forever (see c36SelfOperands)
+			if a == b {
+				continue
+			}
 			others := []*tsdb.SeriesIDSet{real[b]}
 			om := []c36Set{model[b]}
-			if rg.Bool() {
-				c := rg.Intn(nSets)
+			if c := rg.Intn(nSets); c != a && rg.Bool() {
 				others = append(others, real[c])
 				om = append(om, model[c])
 			}
@@ -698,7 +730,7 @@ func c36IDSet(r *vkit.Run, rg *vkit.Rand, ci int) {
 			if err != nil || n != int64(buf.Len()) {
 				fail("WriteTo", fmt.Sprintf("n=%d len=%d err=%v", n, buf.Len(), err))
 			}
-			back := tsdb.NewSeriesIDSet(12345) // a non-empty receiver: unmarshalling replaces the content
+			back := tsdb.NewSeriesIDSet() // fresh receiver, as every caller in /repo does (reading into a non-empty set is unspecified)
 			if rg.Bool() {
 				if err := back.UnmarshalBinary(buf.Bytes()); err != nil {
 					fail("UnmarshalBinary", err.Error())
@@ -770,7 +802,7 @@ func c36IDSet(r *vkit.Run, rg *vkit.Rand, ci int) {
 	total := 0
 	for i := range real {
 		if !bad {
-			cmp("end", i)
+			cmpFull("end", i)
 		}
 		total += len(model[i])
 	}
@@ -788,7 +820,7 @@ func c36IDSet(r *vkit.Run, rg *vkit.Rand, ci int) {
 // id seen belongs to the universe). Data races are reported by the race detector (build "race").
 func c36Concurrent(r *vkit.Run, round int) {
 	rg := r.SubRand("concurrent", round)
-	const writers, readers, perWriter = 4, 4, 1500
+	const writers, readers, perWriter = 4, 4, 500
 	stable := c36Set{}
 	var init []uint64
 	for i := 0; i < 200; i++ {
@@ -960,15 +992,104 @@ func c36Concurrent(r *vkit.Run, round int) {
 	r.Case(fmt.Sprintf("idset-concurrent/%d", round), true)
 }
 
+// c36SelfOperands: A∪A, A\A, A∩A … with the receiver as its own operand. A call that never
+// returns is decided without a clock: the set is private to the calling goroutine, so once
+// that goroutine is parked in sync.RWMutex.Lock nobody can ever release it.
+func c36SelfOperands(r *vkit.Run) {
+	type probe struct {
+		name string
+		run  func(s *tsdb.SeriesIDSet) string // returns "" or a description of a wrong result
+	}
+	want := func(s *tsdb.SeriesIDSet, ids ...uint64) string {
+		m := c36Set{}
+		for _, id := range ids {
+			m[id] = struct{}{}
+		}
+		return c36SetEq(s, m)
+	}
+	probes := []probe{
+		{"MergeInPlace", func(s *tsdb.SeriesIDSet) string { s.MergeInPlace(s); return want(s, 1, 2, 70000) }},
+		{"Equals", func(s *tsdb.SeriesIDSet) string {
+			if !s.Equals(s) {
+				return "A != A"
+			}
+			return ""
+		}},
+		{"And", func(s *tsdb.SeriesIDSet) string { return want(s.And(s), 1, 2, 70000) }},
+		{"AndNot", func(s *tsdb.SeriesIDSet) string { return want(s.AndNot(s)) }},
+		{"Intersects", func(s *tsdb.SeriesIDSet) string {
+			if !s.Intersects(s) {
+				return "A does not intersect A"
+			}
+			return ""
+		}},
+		{"Merge", func(s *tsdb.SeriesIDSet) string { s.Merge(s); return want(s, 1, 2, 70000) }},
+		{"Diff", func(s *tsdb.SeriesIDSet) string { s.Diff(s); return want(s) }},
+	}
+	for _, p := range probes {
+		s := tsdb.NewSeriesIDSet(1, 2, 70000)
+		done := make(chan string, 1)
+		go func() { done <- c36SelfBody(p.run, s) }()
+		blocked, decided := 0, false
+		for poll := 0; poll < 400 && !decided; poll++ {
+			select {
+			case res := <-done:
+				decided = true
+				r.Event("idset_self_operand_returned", 1)
+				if res != "" {
+					c36T.V("idset_differs_from_set_model", map[string]string{"structure": "SeriesIDSet", "op": p.name + "(self)"}, map[string]any{"detail": res})
+				}
+			default:
+				buf := make([]byte, 1<<20)
+				buf = buf[:runtime.Stack(buf, true)]
+				parked := false
+				for _, g := range bytes.Split(buf, []byte("\n\n")) {
+					if bytes.Contains(g, []byte("c36SelfBody")) && bytes.HasPrefix(g, []byte("goroutine ")) &&
+						(bytes.Contains(g[:bytes.IndexByte(g, '\n')+1], []byte("[sync.RWMutex.Lock")) || bytes.Contains(g[:bytes.IndexByte(g, '\n')+1], []byte("[sync.RWMutex.RLock"))) {
+						parked = true
+					}
+				}
+				if parked {
+					blocked++
+				} else {
+					blocked = 0
+				}
+				if blocked >= 5 {
+					decided = true
+					r.Event("idset_self_operand_deadlocked", 1)
+					c36T.V("idset_self_operand_deadlock", map[string]string{"structure": "SeriesIDSet", "op": p.name + "(self)"},
+						map[string]any{"detail": "s." + p.name + "(s) on a set private to the calling goroutine: the goroutine is parked in sync.RWMutex.Lock on the set's own lock (read lock still held by the same call), nothing can release it", "polls_parked": blocked})
+				}
+				time.Sleep(2 * time.Millisecond)
+			}
+		}
+		if !decided {
+			r.Inconclusive("self-operand probe " + p.name + ": neither returned nor parked on the set's lock")
+		}
+		r.Case("idset-self/"+p.name, true)
+	}
+}
+
+func c36Dbg(s string) {
+	if os.Getenv("VERIF_DEBUG") != "" {
+		fmt.Fprintln(os.Stderr, "C36:", s)
+	}
+}
+
+//go:noinline
+func c36SelfBody(f func(*tsdb.SeriesIDSet) string, s *tsdb.SeriesIDSet) string { return f(s) }
+
 func TestC36(t *testing.T) {
 	r := vkit.Start(t, "C36", "exploration")
 	defer r.Finish()
 	c36T = gpNewTally(r)
 	defer c36T.Flush()
-	r.Rule("a case = one generated operation sequence (10–500 ops) against one structure, cycling rhh.HashMap (capacity 1–256, load factor 50–100, 3–600 keys incl. empty/long/binary keys; Put/PutQuiet/Get/Grow/Reset/Keys/Elem vs map), bloom.Filter (m 1–100000 bits, k 1–13; Insert/Contains/Clone/Merge/NewFilterBuffer, no false negative), radix.Tree (keys over {a,b,c}^≤6, empty key, 4 KiB keys; Insert/Get/DeletePrefix/Minimum/Maximum/Len vs sorted map), tsdb.SeriesIDSet (3 sets; Add/AddMany/Remove/Contains/Merge/MergeInPlace/And/AndNot/Diff/Intersects/Equals/Clone/ForEach/Iterator/WriteTo→UnmarshalBinary[Unsafe]/Clear vs map[uint64]); plus rounds of concurrent SeriesIDSet writers/readers under the race detector; non-trivial = ≥2 live elements (radix: or a DeletePrefix happened); distinct = hash of (structure, parameters, first key / history)")
-	n := r.N(1600, 120000)
+	r.Rule("a case = one generated operation sequence (10–300 ops) against one structure, cycling rhh.HashMap (capacity 1–256, load factor 50–100, 3–300 keys incl. empty/long/binary keys; Put/PutQuiet/Get/Grow/Reset/Keys/Elem vs map), bloom.Filter (m 1–100000 bits, k 1–13; Insert/Contains/Clone/Merge/NewFilterBuffer, no false negative), radix.Tree (keys over {a,b,c}^≤6, empty key, 4 KiB keys; Insert/Get/DeletePrefix/Minimum/Maximum/Len vs sorted map), tsdb.SeriesIDSet (3 sets; Add/AddMany/Remove/Contains/Merge/MergeInPlace/And/AndNot/Diff/Intersects/Equals/Clone/ForEach/Iterator/WriteTo→UnmarshalBinary[Unsafe]/Clear vs map[uint64]); plus rounds of concurrent SeriesIDSet writers/readers under the race detector; non-trivial = ≥2 live elements (radix: or a DeletePrefix happened); distinct = hash of (structure, parameters, first key / history)")
+	n := r.N(800, 16000)
+	spent := map[string]float64{} // diagnostic only, never decides anything
 	for i := 0; i < n; i++ {
 		rg := r.Rand(i)
+		t0 := time.Now()
 		switch i % 4 {
 		case 0:
 			c36RHH(r, rg, i)
@@ -979,10 +1100,16 @@ func TestC36(t *testing.T) {
 		default:
 			c36IDSet(r, rg, i)
 		}
+		spent[[]string{"rhh", "bloom", "radix", "idset"}[i%4]] += time.Since(t0).Seconds()
 	}
-	rounds := r.N(6, 60)
+	r.Extra("diagnostic_seconds_per_structure", spent)
+	c36Dbg("sequences done")
+	c36SelfOperands(r)
+	c36Dbg("self operands done")
+	rounds := r.N(3, 30)
 	for i := 0; i < rounds; i++ {
 		c36Concurrent(r, i)
+		c36Dbg(fmt.Sprint("concurrent round ", i, " done"))
 	}
 	if q := c36FPqueries.Load(); q > 0 {
 		r.Extra("bloom_false_positive_rate_measured", map[string]any{"queries": q, "false_positives": c36FPhits.Load(), "rate": float64(c36FPhits.Load()) / float64(q), "note": "reported, not judged; filters are deliberately tiny/overfull in many cases"})
